@@ -444,6 +444,8 @@ class C23(Property):
                     ctx.fail(f"writer:{reader}-extracts-different-tree", f"format {fmt}: {d[:3]}", replay)
 
     def explore(self, ctx: Ctx) -> None:
+        from sfv.rt.shfake import limit_failures
+        limit_failures(ctx)
         self.gen = getattr(self, "gen", 0) + 1
         self.nx = 0
         big = ctx.tier == "thorough" or ctx.mode == "search"
